@@ -797,12 +797,12 @@ def c08_refclass(case, octets=None):
     if (case.get("script") or {}).get("kind", "").startswith("replace"):
         return "substituted-response"
     ref = TL.ref_read(case["image"], case["hr0"])
+    if ref.status == "invalid" and "runs beyond" in ref.why:
+        return "value-overrun"
     if ref.prior_spans:
         return "tlv-spans-reserved"
     if ref.status == "ndef" and octets is not None and octets == ref.octets:
         return "capacity-underreported"
-    if ref.status == "invalid" and "runs beyond" in ref.why:
-        return "value-overrun"
     return "ref-" + str(ref.status)
 
 
